@@ -1,7 +1,7 @@
 (* ===== C20 : formula differentiation is the term-wise partial derivative ===== *)
-From Coq Require Import List Arith Bool QArith Qcanon NArith.
+From Coq Require Import List Arith Bool QArith Qcanon NArith Permutation.
 Import ListNotations.
-Require Import Struct Calc CalcLaws.
+Require Import Struct Calc CalcLaws CalcOrder.
 Open Scope Qc_scope.
 
 (* same number and order of terms; each term is differentiated on its own *)
@@ -31,6 +31,28 @@ Example C20_example :
   diff_formula [[]; [[97]%N]; [[98]%N]; [[97]%N; [98]%N]] [[97]%N] = [DZero; DTerm []; DZero; DTerm [[98]%N]].
 Proof. vm_compute. reflexivity. Qed.
 
+(* "applied successively for several variables", in closed form: the result is non-zero exactly when the variables are pairwise distinct
+   factors of the term, it is then the term without them (in the term's own order), and the order in which the variables are given
+   does not matter (mixed partial derivatives commute), for single terms and whole formulas *)
+Theorem C20_nonzero_iff_distinct_factors : forall fs wrt,
+  (exists fs', diff fs wrt = DTerm fs') <-> NoDup wrt /\ forall v, In v wrt -> mem v fs = true.
+Proof. exact diff_nonzero_iff. Qed.
+Theorem C20_result_is_term_without_variables : forall fs wrt fs', diff fs wrt = DTerm fs' -> fs' = filter (fun x => negb (mem x wrt)) fs.
+Proof. exact diff_value. Qed.
+Theorem C20_variable_order_irrelevant : forall wrt wrt', Permutation wrt wrt' -> forall fs, diff fs wrt = diff fs wrt'.
+Proof. exact diff_perm. Qed.
+Theorem C20_variable_order_irrelevant_formula : forall ts wrt wrt', Permutation wrt wrt' -> diff_formula ts wrt = diff_formula ts wrt'.
+Proof. exact diff_formula_perm. Qed.
+Example C20_mixed_example :
+  diff [[97]; [98]; [99]]%N [[99]; [97]]%N = DTerm [[98]%N] /\ diff [[97]; [98]; [99]]%N [[97]; [99]]%N = DTerm [[98]%N] /\
+  diff [[97]; [98]]%N [[97]; [100]]%N = DZero.
+Proof. vm_compute. auto. Qed.
+
+Print Assumptions C20_nonzero_iff_distinct_factors.
+Print Assumptions C20_result_is_term_without_variables.
+Print Assumptions C20_variable_order_irrelevant.
+Print Assumptions C20_variable_order_irrelevant_formula.
+Print Assumptions C20_mixed_example.
 Print Assumptions C20_same_terms_same_order.
 Print Assumptions C20_termwise.
 Print Assumptions C20_absent_is_zero.
